@@ -43,6 +43,7 @@ Arguments setv : simpl never.
 Arguments map_eff : simpl never.
 Arguments map_ev : simpl never.
 Arguments drop_req : simpl never.
+Arguments add_aborted : simpl never.
 
 (* the part of a command record that no runtime step may change *)
 Definition meta (c : cmdst) := (c_names c, c_epoch c).
@@ -65,6 +66,7 @@ Section Frame.
   Hypothesis R_add_chan : forall c H, R H (mkH (chans H ++ [c]) (tfl H) (cmds H) (woken H) (xready H) (aborted H) (log H)).
   Hypothesis R_add_tflag : forall t H, R H (mkH (chans H) (tfl H ++ [t]) (cmds H) (woken H) (xready H) (aborted H) (log H)).
   Hypothesis R_add_gen : forall H, R H (mkH (chans H) (tfl H) (cmds H) (woken H ++ [false]) (xready H) (aborted H) (log H)).
+  Hypothesis R_add_aborted : forall n H, R H (add_aborted n H).
   Hypothesis R_add_cmd : forall c H, R H (mkH (chans H) (tfl H) (cmds H ++ [c]) (woken H) (xready H) (aborted H) (log H)).
 
   Lemma R_fold {A} (g : heap -> A -> heap) (l : list A) :
@@ -214,6 +216,7 @@ Section Frame.
         * apply IHp in E. exact E.
         * apply IHp in E. eapply R_trans; [|exact E]. rsolve.
         * apply IHp in E. exact E.
+        * apply IHp in E. eapply R_trans; [apply R_add_aborted | exact E].
         * destruct (new_chan H) as [ch1 H1] eqn:E1. destruct (new_chan H1) as [ch2 H2] eqn:E2.
           apply R_new_chan in E1. apply R_new_chan in E2. apply IHp in E.
           eapply R_trans; [exact E1|]. eapply R_trans; eassumption.
@@ -310,7 +313,7 @@ Section Frame.
     - (* run_task *)
       intros cid s H r H' E. cbn [step_funs rrun_task] in E. unfold run_task_body in E.
       destruct (slab_get s (gcmd cid H)) as [t|]; [|inversion E; subst; apply R_note].
-      destruct (tf_abort (gtf (t_uid t) H)); [inversion E; subst; apply R_note|].
+      match type of E with (if ?b then _ else _) = _ => destruct b end; [inversion E; subst; apply R_note|].
       match type of E with context[rpoll F cid ?w ?fs ?H1] => destruct (rpoll F cid w fs H1) as [[pr H2]|] eqn:E2; [|discriminate] end.
       apply IHp in E2.
       assert (R0 : R H H2) by (eapply R_trans; [|exact E2]; apply R_add_gen).
